@@ -34,8 +34,11 @@ def main():
     try:
         tree = Tree()
         mod.check(tree, rep, tier=tier, seed=seed)
-        if tier == 'thorough' and hasattr(mod, 'thorough'):
-            mod.thorough(tree, rep, seed=seed)
+        if tier == 'thorough':
+            if hasattr(mod, 'thorough'):
+                mod.thorough(tree, rep, seed=seed)
+            from sa.selftest import selftest
+            selftest(pid, rep, seed=seed)
     except AnalysisError as e:
         rep.error(str(e))
     except Exception:
